@@ -275,7 +275,8 @@ int cs_terms_residual(vnacal_t *vcp, int ci, const cs_scenario *sc,
  * standard column -- U: standard row and measured column -- that the
  * standard was given for and connects through a signal path; leakage terms
  * outside the system are the mean of the measured cells without such a
- * path and are subtracted first).  The equations are linear in the terms,
+ * path, at least one of whose ports the standard uses, and are subtracted
+ * first).  The equations are linear in the terms,
  * so the test is exact: for every free term t the residual vector r is
  * orthogonal to dr/dt = r(e + 1_t) - r(e).
  *
@@ -535,7 +536,10 @@ int cs_terms_gradient(vnacal_t *vcp, int ci, const cs_scenario *sc,
 			    }
 			bool connected = inmap[i] && inmap[j] &&
 			    comp[i] == comp[j];
-			if (!connected && mgiven[k][i * P + j]) {
+			/* between two ports the standard leaves open
+			   anything may be connected: no observation */
+			if (!connected && (inmap[i] || inmap[j]) &&
+				mgiven[k][i * P + j]) {
 			    sum += M[k][i * P + j];
 			    ++cnt;
 			}
